@@ -673,6 +673,16 @@ func loadProgramAttempt(renames map[string]map[string]string, dropped map[string
 					continue
 				}
 				ps := localParams(call.Pos())
+				// the receiver of a method call is available to the hook as `recv`
+				if se, ok := call.Fun.(*ast.SelectorExpr); ok {
+					if sel := info.Selections[se]; sel != nil && sel.Kind() == types.MethodVal {
+						if msig, ok := sel.Obj().Type().(*types.Signature); ok && msig.Recv() != nil {
+							if _, isI := sel.Recv().Underlying().(*types.Interface); !isI {
+								ps = append(ps, "recv "+types.TypeString(msig.Recv().Type(), is.qual))
+							}
+						}
+					}
+				}
 				for i, a := range call.Args {
 					if tv, ok := info.Types[a]; ok && tv.Type != nil {
 						at := tv.Type
@@ -741,6 +751,33 @@ func loadProgramAttempt(renames map[string]map[string]string, dropped map[string
 			}
 		}
 	}
+	// function-local named struct types of contracted functions: clause functions live at package level and cannot name
+	// them, so a package-level twin with the same name and fields is emitted (only when the package has no such name;
+	// inside the function the local type shadows the twin; dsvc keys struct fields by type NAME, so both coincide)
+	var twins strings.Builder
+	twinDone := map[string]bool{}
+	for _, key := range cf.Order {
+		fi := funcs[key]
+		if fi == nil || fi.Decl == nil || fi.Decl.Body == nil {
+			continue
+		}
+		ast.Inspect(fi.Decl.Body, func(n ast.Node) bool {
+			tsp, ok := n.(*ast.TypeSpec)
+			if !ok {
+				return true
+			}
+			obj, _ := p1.TypesInfo.Defs[tsp.Name].(*types.TypeName)
+			if obj == nil || twinDone[tsp.Name.Name] || p1.Types.Scope().Lookup(tsp.Name.Name) != nil {
+				return true
+			}
+			if _, isStruct := obj.Type().Underlying().(*types.Struct); !isStruct {
+				return true
+			}
+			twinDone[tsp.Name.Name] = true
+			fmt.Fprintf(&twins, "type %s %s\n\n", tsp.Name.Name, types.TypeString(obj.Type().Underlying(), is.qual))
+			return true
+		})
+	}
 	var hdr strings.Builder
 	hdr.WriteString("//go:build verif\n\npackage " + p1.Types.Name() + "\n\n")
 	var paths []string
@@ -755,7 +792,7 @@ func loadProgramAttempt(renames map[string]map[string]string, dropped map[string
 		}
 		hdr.WriteString(")\n\n")
 	}
-	genSrc := hdr.String() + gen.String()
+	genSrc := hdr.String() + twins.String() + gen.String()
 	overlay := map[string][]byte{filepath.Join(RepoDir, GenFileName): []byte(genSrc)}
 	p2, err := loadPkg(overlay)
 	if err != nil {
